@@ -92,3 +92,44 @@
             Err(_) => assert!(false),
         }
     }
+
+    // "malformed ... headers close the session without forwarding anything": whatever 28 bytes arrive (signature,
+    // version/command byte, family byte, length field, address block all symbolic), the parser accepts them only if
+    // they are a well-formed v2 header, and what it reports is exactly what the bytes say.
+    #[kani::proof]
+    #[kani::unwind(30)]
+    fn v2_parser_accepts_only_wellformed_28() {
+        let b: [u8; 28] = kani::any();
+        let r = parse_v2_header(&b);
+        let sig_ok = { let mut ok = true; let mut i = 0; while i < 12 { if b[i] != SIG[i] { ok = false; } i += 1; } ok };
+        let declared = u16::from_be_bytes([b[14], b[15]]) as usize;
+        match r {
+            Ok((rest, h)) => {
+                assert!(sig_ok);
+                // version nibble must be 2, command nibble LOCAL (0) or PROXY (1): nothing else is PROXY protocol v2
+                assert!(b[12] == 0x20 || b[12] == 0x21);
+                assert!((b[12] == 0x21) == (h.command == Command::Proxy));
+                assert!(h.family == b[13]);
+                let fam = b[13] >> 4;
+                assert!(fam <= 2);
+                assert!(declared <= 12 && rest.len() == 12 - declared);
+                match h.addr {
+                    ProxyAddr::Ipv4Addr { src_addr, dst_addr } => {
+                        assert!(fam == 1 && declared == 12);
+                        assert!(src_addr.ip().octets() == [b[16], b[17], b[18], b[19]]);
+                        assert!(dst_addr.ip().octets() == [b[20], b[21], b[22], b[23]]);
+                        assert!(src_addr.port() == u16::from_be_bytes([b[24], b[25]]));
+                        assert!(dst_addr.port() == u16::from_be_bytes([b[26], b[27]]));
+                    }
+                    ProxyAddr::AfUnspec => assert!(fam == 0),
+                    _ => assert!(false),   // an IPv6 block needs 36 bytes: impossible inside 28
+                }
+            }
+            Err(_) => {
+                // a well-formed IPv4 header is never refused
+                assert!(!(sig_ok && (b[12] == 0x20 || b[12] == 0x21) && b[13] >> 4 == 1 && declared == 12));
+            }
+        }
+        kani::cover!(matches!(parse_v2_header(&b), Ok(_)));
+    }
+
